@@ -70,10 +70,22 @@ class Run:
         """No vacuous rules: fewer than `minimum` instances of a rule is an analysis error."""
         n = self.rule_counts.get(rule, 0)
         self.floors[rule] = minimum
+        if n < minimum and self.violations:
+            self.info(f"rule {rule}: {n} {what} (floor {minimum}) - not enforced because violations were found")
+            return
         if n < minimum:
             raise AnalysisError(
                 f"rule {rule}: only {n} {what} found, floor is {minimum} (anchor moved?)"
             )
+
+    def require(self, cond, msg):
+        """A hand-confirmed count / anchor; missing it is an analysis error unless the run already
+        has violations to report (the broken construct is then the likely cause)."""
+        if not cond:
+            if self.violations:
+                self.info(msg + " - not enforced because violations were found")
+            else:
+                raise AnalysisError(msg)
 
     def cover(self, **kw):
         self.coverage_extra.update(kw)
